@@ -113,8 +113,11 @@ def clockify_source(src):
         return src, 0
     # add the import right after the package clause; keep `time` referenced in case it became unused
     m = re.search(r"^package\s+\w+.*$", out, re.M)
+    # if every use of package time was replaced, the file's own `time` import would now be unused
+    keep_time = "" if re.search(r"\btime\.\w", out) else "\nvar _ = time.Second\n"
+    has_time_import = re.search(r'^\s*(?:import\s+)?"time"\s*$', out, re.M) is not None
     inject = "\nimport " + CLOCK_IMPORT + "\nimport verifclockTime \"time\"\n"
-    out = out[:m.end()] + inject + out[m.end():] + "\nvar _ = verifclockTime.Second\n"
+    out = out[:m.end()] + inject + out[m.end():] + "\nvar _ = verifclockTime.Second\n" + (keep_time if has_time_import else "")
     return out, n
 
 
@@ -348,6 +351,12 @@ def nth_lines(path, lo, hi):
 
 
 def run_property(pid, tier, seed, replay=None):
+    # one run of a property at a time (runs share .work/run/<id> and Generated/<id>.lean)
+    with Lock("prop-" + pid):
+        return _run_property(pid, tier, seed, replay)
+
+
+def _run_property(pid, tier, seed, replay=None):
     t0 = time.time()
     spec, mod = load_spec(pid)
     evdir = os.environ.get("VERIF_EVIDENCE_DIR") or os.path.join(VERIF, "evidence")
